@@ -126,17 +126,20 @@ def make(max_packet, buffer_size, epnum):
         inv("toggle_register", ts.sig("expected_data_toggle") == tog)
         inv("overflow_register", ts.sig("overflow") == pkt_lost)
         inv("transfer_active_register", ts.sig("transfer_active") == in_transfer)
-        inv("packet_full_register", z3.Or(pkt_lost == 1, ts.sig("packet_full") == plen_full))
+        if ts.has("packet_full"):      # register introduced by proposed_fixes/C13_*.diff; absent in the unfixed design
+            inv("packet_full_register", z3.Or(pkt_lost == 1, ts.sig("packet_full") == plen_full))
         rxc = ts.sig("rx_cnt")
         inv("rx_cnt_counts_pending", rxc == z3.Extract(rxc.size() - 1, 0, q.n_p))
         inv("pending_only_in_data_phase", z3.Implies(z3.Not(rx.in_data_phase), q.n_p == 0))
+        inv("pending_only_for_my_out_token", z3.Implies(q.n_p != 0, z3.And(l_ep == epnum, l_pid == PID_OUT)))
         inv("pending_at_most_processed", z3.Implies(z3.Or(is_open, closing), z3.ULE(q.n_p, zx(rx.pidx, CW))))
         inv("pending_at_most_max_packet", z3.ULE(q.n_p, max_packet))
         inv("pending_is_whole_packet_so_far_or_nothing",
             z3.Implies(z3.And(z3.Or(is_open, closing), pkt_lost == 0), q.n_p == z3.If(OK, zx(rx.pidx, CW), bvc(0, CW))))
         inv("awaiting_only_between_packets", z3.Implies(awaiting == 1, z3.And(rx.pv == 0, z3.Not(is_open))))
-        inv("committed_packet_lost_nothing", z3.Implies(pkt_committed == 1, z3.And(pkt_lost == 0, z3.Not(is_open), z3.Not(closing))))
+        inv("committed_packet_lost_nothing", z3.Implies(pkt_committed == 1, z3.And(pkt_lost == 0, rx.pv == 0, z3.Not(is_open), z3.Not(closing))))
         inv("had_bytes_when_in_data_phase", z3.Implies(z3.Or(closing, strobe), had_bytes == 1))
+        inv("no_bytes_yet_in_empty_raw_packet", z3.Implies(z3.And(rx.pv == 1, z3.Not(is_open)), had_bytes == 0))
         inv("accepted_packet_is_committed_once_drained",
             z3.Implies(z3.And(awaiting == 1, had_bytes == 1, pkt_lost == 0, z3.Not(closing), z3.Not(strobe),
                               l_ep == epnum, l_pid == PID_OUT), pkt_committed == 1))
